@@ -4,4 +4,6 @@ go 1.23
 
 require github.com/failsafe-go/failsafe-go v0.0.0
 
+require github.com/bits-and-blooms/bitset v1.20.0 // indirect
+
 replace github.com/failsafe-go/failsafe-go => /repo
